@@ -292,8 +292,10 @@ def corr_builders(ctx, scale):
 class Capture:
     """TLS connections to 443, 44330, 8443, 9443, 5000 and QUIC connections to 443 and 8443, interleaved in time."""
     TLS = [("t443", 12, 443, 40001), ("t44330", 13, 44330, 40002), ("t8443", 13, 8443, 40003), ("t9443", 12, 9443, 40004),
-           ("t5000", 12, 5000, 40005)]
-    QUIC = [("q443", 443, 50001), ("q8443", 8443, 50002)]
+           ("t5000", 12, 5000, 40005), ("t44330lo", 12, 44330, 30000)]
+    # incl. client ports numerically BELOW the server port (an ephemeral port below 44330, a low port towards 8443):
+    # the server side is decided by the port list, never by which port is smaller
+    QUIC = [("q443", 443, 50001), ("q8443", 8443, 50002), ("q44330lo", 44330, 40100), ("q8443lo", 8443, 7000)]
 
     def __init__(self, seed):
         rng = random.Random(seed)
